@@ -47,9 +47,17 @@ def scriptHandler : Handler
           match execAll rc [] d with
           | none => throw s!"the dump is not a well-formed script: statement #{(firstIllFormed rc [] d).getD 0}"
           | some db' => if db'.equiv db then pure () else throw ("the dump describes a different schema: " ++ db'.diffReport db) : Check)
+        let ordering : Option String :=
+          if (fidelity true).toBool then none else if (fidelity false).toBool then some "referential-ordering" else none
+        -- inside the executable scope of the dump theorem (`proved_dump`, Proofs/ScopeB.lean) only the statement order across
+        -- tables is excused (the theorem runs the engine with its referential checks off)
+        let pD := Scope.Proved.dump g ss db
+        let regionDump := if pD then ordering else match region with
+          | some r => some r
+          | none => ordering
         let region := match region with
           | some r => some r
-          | none => if (fidelity true).toBool then none else if (fidelity false).toBool then some "referential-ordering" else none
+          | none => ordering
         let split : Check := do
           check (o "errSplit" == "ok" && o "splitEq" == "true") s!"one statement per call gives a different model ({o "errSplit"})"
           check (o "errSplit2" == "ok" && o "split2Eq" == "true") s!"a split into calls gives a different model ({o "errSplit2"})"
@@ -63,7 +71,8 @@ def scriptHandler : Handler
           | none => pure ()
         (judge "C08" region (check (o "stateAfterOutputs" == o "state" || isPanic (o "dump") || isPanic (o "dumpDown"))
           "StringUp / StringDown / HashValue changed the loaded model")).and <|
-        (judge "C05" region (fidelity true)).and <|
+        ((if pD then { items := ["proved[C05]"] } else okV : Verdict)).and <|
+        (judge "C05" regionDump (fidelity true)).and <|
         (judge "C05" (region.map (· ++ "/split")) split).and <|
         (judge "C05" none reject).and <|
         (judge "C09" (Scope.c09 g db ss) crash)
